@@ -3,6 +3,7 @@
 package checks
 
 import (
+	authtypes "github.com/cosmos/cosmos-sdk/x/auth/types"
 	"fmt"
 	"math/big"
 	"math/rand"
@@ -452,6 +453,12 @@ func c02ProgramGroup(r *report.R, gid string) {
 	for k := 0; k < 8; k++ {
 		r.Eval(1)
 		a := n.Accounts[rng.Intn(4)]
+		if rng.Intn(4) == 0 {
+			if !c02PrefundedCreate(r, gid, n, rng, a, eoas, fresh) {
+				break
+			}
+			continue
+		}
 		p := genProg(rng, 3, eoas, fresh)
 		all, err := deployProg(n, deployer, p)
 		if err != nil {
@@ -507,6 +514,89 @@ func c02ProgramGroup(r *report.R, gid string) {
 	}
 	n.EndBlock()
 	n.Commit()
+}
+
+// c02PrefundedCreate: a contract is created on an address that already holds native coins (a plain
+// code-less account in the store); its constructor pays someone, destroys the contract in favour
+// of a beneficiary, or just returns.  Supply and every balance are compared with go-ethereum.
+func c02PrefundedCreate(r *report.R, gid string, n *vn.Node, rng *rand.Rand, a vn.Account, eoas []common.Address, fresh func() common.Address) bool {
+	funder := n.Accounts[6]
+	nonce := n.EthNonce(a.Eth)
+	addr := vn.CreateAddress(a.Eth, nonce)
+	pre := int64(rng.Intn(1_000_000) + 10)
+	gp := big.NewInt(1_000_000_000)
+	if res := n.Deliver(n.EthTx(funder, vn.EthArgs{Nonce: n.EthNonce(funder.Eth), To: &addr, Value: big.NewInt(pre), Gas: 21000, GasPrice: gp})); res.Code != 0 {
+		r.Note("prefund: %.100s", res.Log)
+		return true
+	}
+	ben, cls := eoas[rng.Intn(len(eoas))], "eoa"
+	switch rng.Intn(4) {
+	case 0:
+		ben, cls = fresh(), "fresh"
+	case 1:
+		ben, cls = addr, "self"
+	}
+	var ctor []evmasm.Step
+	ending := "selfdestruct"
+	switch rng.Intn(3) {
+	case 0:
+		ctor = []evmasm.Step{evmasm.SelfDestruct{To: ben}}
+	case 1:
+		ctor, ending = []evmasm.Step{evmasm.Transfer{To: eoas[0], Value: big.NewInt(pre / 2)}, evmasm.SelfDestruct{To: ben}}, "pays-then-selfdestruct"
+	default:
+		ctor, ending, cls = []evmasm.Step{evmasm.Transfer{To: eoas[0], Value: big.NewInt(pre / 3)}}, "pays-and-stays", "none"
+	}
+	args := vn.EthArgs{Type: rng.Intn(3), Nonce: nonce, Data: evmasm.InitCode(ctor, []evmasm.Step{evmasm.Stop{}}), Gas: 600000, GasPrice: gp, GasFeeCap: gp, GasTipCap: gp, Value: big.NewInt(int64(rng.Intn(300)))}
+	tx := n.SignEth(a, args)
+	addrs := []common.Address{addr, ben, eoas[0], a.Eth}
+	ref := gethRef(n, tx, nil, addrs)
+	if ref.Err != nil {
+		r.Note("geth ref: %v", ref.Err)
+		return true
+	}
+	supBefore := n.Supply(vn.Denom)
+	var sumBefore, sumRef big.Int
+	seen := map[common.Address]bool{}
+	for _, x := range addrs {
+		if !seen[x] {
+			seen[x] = true
+			sumBefore.Add(&sumBefore, n.Balance(sdk.AccAddress(x.Bytes()), vn.Denom).BigInt())
+		}
+	}
+	collBefore := n.Balance(authtypes.NewModuleAddress(authtypes.FeeCollectorName), vn.Denom)
+	res := n.Deliver(n.WrapEth(tx))
+	ers := vn.EthResult(res)
+	if res.Code != 0 || len(ers) != 1 {
+		r.Note("prefunded create rejected: %.100s", res.Log)
+		return true
+	}
+	outcome := "success"
+	if ers[0].VmError != "" {
+		outcome = "failed"
+	}
+	sig := fmt.Sprintf("create-on-funded-address|%s|beneficiary=%s|%s", ending, cls, outcome)
+	extra := new(big.Int).Mul(tx.GasPrice(), new(big.Int).SetUint64(ers[0].GasUsed-ref.UsedGas))
+	for x := range seen {
+		w := new(big.Int).Set(ref.Balances[x])
+		if x == a.Eth {
+			w.Sub(w, extra)
+		}
+		sumRef.Add(&sumRef, w)
+		if got := n.Balance(sdk.AccAddress(x.Bytes()), vn.Denom).BigInt(); got.Cmp(w) != 0 {
+			r.Violation(gid, sig+"|balance≠reference", fmt.Sprintf("%s has %s, go-ethereum reference %s (address funded with %d before the creation)", x.Hex(), got, w, pre), nil)
+			return false
+		}
+	}
+	// supply: changes by exactly what the reference destroys (a contract destroyed in its own favour)
+	fees := n.Balance(authtypes.NewModuleAddress(authtypes.FeeCollectorName), vn.Denom).Sub(collBefore).BigInt()
+	wantSupply := new(big.Int).Add(supBefore.BigInt(), new(big.Int).Sub(new(big.Int).Add(&sumRef, fees), &sumBefore))
+	if got := n.Supply(vn.Denom).BigInt(); got.Cmp(wantSupply) != 0 {
+		r.Violation(gid, sig+"|supply-changed", fmt.Sprintf("supply %s → %s, expected %s", supBefore, got, wantSupply), nil)
+		return false
+	}
+	r.Count("creations_on_funded_addresses_matched_reference", 1)
+	r.Nontriv(sig)
+	return true
 }
 
 var _ = rand.Int
